@@ -266,14 +266,24 @@ Proof.
                   end) = Ok (start, Some stop, step)).
   { destruct (s_step k) as [s|]; [|reflexivity]. destruct (s >? 0) eqn:E; [reflexivity|lia]. }
   rewrite Hind. cbn [bind]. destruct (step <? 0) eqn:Eneg; [lia|].
-  cbn [bind]. set (q := (stop - 1 - start) / step).
-  pose proof (Z.div_mod (stop - 1 - start) step ltac:(lia)) as Hdm.
-  pose proof (Z.mod_pos_bound (stop - 1 - start) step Hs) as Hmb. fold q in Hdm.
-  unfold slice_indices at 1. cbn [s_step s_start s_stop].
-  rewrite <- Hstepk. destruct (step =? 0) eqn:E0; [lia|]. rewrite Eneg. cbn [bind].
-  unfold clamp_index, range_list.
-  destruct (start <? stop) eqn:Elt.
-  - (* non-empty *)
+  destruct (stop <=? start) eqn:Ese.
+  - (* empty slice *)
+    cbn [bind]. unfold slice_indices at 1. cbn [s_step s_start s_stop].
+    rewrite <- Hstepk. destruct (step =? 0) eqn:E0; [lia|]. rewrite Eneg. cbn [bind].
+    unfold clamp_index, range_list.
+    destruct (len - start <? 0) eqn:E3; [lia|]. destruct (len - start >? len) eqn:E4; [lia|].
+    assert (Hrl1 : range_len start stop step = 0).
+    { unfold range_len. destruct (step >? 0) eqn:E; [|lia]. destruct (start <? stop) eqn:Elt; [lia|reflexivity]. }
+    assert (Hrl2 : range_len (len - start) (len - start) step = 0).
+    { unfold range_len. destruct (step >? 0) eqn:E; [|lia]. rewrite Z.ltb_irrefl. reflexivity. }
+    rewrite Hrl1, Hrl2. reflexivity.
+  - cbn [bind]. set (q := (stop - 1 - start) / step).
+    pose proof (Z.div_mod (stop - 1 - start) step ltac:(lia)) as Hdm.
+    pose proof (Z.mod_pos_bound (stop - 1 - start) step Hs) as Hmb. fold q in Hdm.
+    unfold slice_indices at 1. cbn [s_step s_start s_stop].
+    rewrite <- Hstepk. destruct (step =? 0) eqn:E0; [lia|]. rewrite Eneg. cbn [bind].
+    unfold clamp_index, range_list.
+    assert (Elt : (start <? stop) = true) by lia.
     assert (Hq : 0 <= q) by nia.
     destruct (len - (start + q * step) - 1 <? 0) eqn:E1; [nia|].
     destruct (len - (start + q * step) - 1 >? len) eqn:E2; [nia|].
@@ -289,19 +299,6 @@ Proof.
     rewrite rev_map_znth_rev.
     + f_equal. f_equal. fold len. rewrite Z2Nat.id by lia. nia.
     + intros j Hj. fold len. nia.
-  - (* empty *)
-    assert (Hrl1 : range_len start stop step = 0).
-    { unfold range_len. destruct (step >? 0) eqn:E; [|lia]. rewrite Elt. reflexivity. }
-    rewrite Hrl1. cbn [Z.to_nat progression map rev res_map].
-    assert (Hq : q <= -1) by nia.
-    match goal with |- Ok (map _ (progression ?a _ (Z.to_nat (range_len ?a ?b _)))) = _ =>
-      assert (Hrl2 : range_len a b step = 0) end.
-    { unfold range_len. destruct (step >? 0) eqn:E; [|lia].
-      destruct (len - (start + q * step) - 1 <? 0) eqn:E1; [nia|].
-      destruct (len - (start + q * step) - 1 >? len) eqn:E2;
-      destruct (len - start <? 0) eqn:E3; try lia; destruct (len - start >? len) eqn:E4; try lia;
-      match goal with |- (if ?c then _ else _) = _ => destruct c eqn:E5 end; try reflexivity; nia. }
-    rewrite Hrl2. reflexivity.
 Qed.
 
 Theorem mirror_len (b : bits) : bs_len (rev b) = bs_len b.
